@@ -5,13 +5,13 @@ from .facts import short
 from .proto import OWNED, UNOWNED, PARKED, ACTIVE_QUEUE
 from .rule import ok, bad, undecided
 
-SYNC = 'desync::scheduler::desync_scheduler::Scheduler::sync'
-SYNC_NP = 'desync::scheduler::desync_scheduler::Scheduler::sync_no_panic'
-TRY_SYNC = 'desync::scheduler::desync_scheduler::Scheduler::try_sync'
-POLL = '<desync::scheduler::scheduler_future::SchedulerFuture as core::future::future::Future>::poll'
-RESCHED = 'desync::scheduler::core::SchedulerCore::reschedule_queue'
-WAKE_QUEUE = '<desync::scheduler::wake_queue::WakeQueue as futures_task::arc_wake::ArcWake>::wake_by_ref'
-WAKE_THREAD = '<desync::scheduler::wake_thread::WakeThread as futures_task::arc_wake::ArcWake>::wake_by_ref'
+SYNC = 'desync::Scheduler::sync'
+SYNC_NP = 'desync::Scheduler::sync_no_panic'
+TRY_SYNC = 'desync::Scheduler::try_sync'
+POLL = '<desync::SchedulerFuture as core::future::future::Future>::poll'
+RESCHED = 'desync::SchedulerCore::reschedule_queue'
+WAKE_QUEUE = '<desync::WakeQueue as futures_task::arc_wake::ArcWake>::wake_by_ref'
+WAKE_THREAD = '<desync::WakeThread as futures_task::arc_wake::ArcWake>::wake_by_ref'
 AQ_DROP = '<%s as core::ops::drop::Drop>::drop' % ACTIVE_QUEUE
 
 
@@ -451,7 +451,7 @@ def pa_rules(ctx):
     return out
 
 
-SYNC_IMMEDIATE = 'desync::scheduler::desync_scheduler::Scheduler::sync_immediate'
+SYNC_IMMEDIATE = 'desync::Scheduler::sync_immediate'
 
 
 def tr_immediate(ctx):
@@ -519,7 +519,7 @@ def park_wake(ctx):
         else:
             out.append(bad('PARK-wake', key, 'a wake that arrives while the job is being polled (queue Running) leaves no trace: the runner then parks the queue and nothing wakes it again', fn=fname))
     # ... and every runner that parks on Poll::Pending consumes the latch instead of parking
-    parkers = {'desync::scheduler::job_queue::JobQueue::drain': 'WaitingForWake', 'desync::scheduler::job_queue::JobQueue::run_one_job_now': 'WaitingForUnpark'}
+    parkers = {'desync::JobQueue::drain': 'WaitingForWake', 'desync::JobQueue::run_one_job_now': 'WaitingForUnpark'}
     for fname, parked in parkers.items():
         tr = {(s, s2) for (f, s, s2, role) in transitions(ctx) if f == fname}
         key = '%s|consumes-latch' % short(fname)
